@@ -65,7 +65,7 @@ func (f *recFactory) MakeHandler(ctx context.Context) simplefixgo.AcceptorHandle
 // genMessage builds one well-formed message tagged with (connection, index).
 func genMessage(t *Tape, conn, idx int) []byte {
 	typ := []string{"0", "D", "8", "V", "AE", "A", "5", "j", "XX"}[t.Draw(9)]
-	fs := []Field{{"35", typ}, F(TagText, fmt.Sprintf("c%d-m%d", conn, idx))}
+	fs := []Field{{Tag: "35", Val: typ}, F(TagText, fmt.Sprintf("c%d-m%d", conn, idx))}
 	nf := t.Draw(6)
 	for i := 0; i < nf; i++ {
 		tag := []int{11, 55, 110, 210, 1, 100, 1010, 9999, 96, 354}[t.Draw(10)]
@@ -365,7 +365,7 @@ func c04outbound(w *World, hs []*recHandler, conns []*c04conn) {
 			t := t
 			simrt.GoHarness("handoff", func() {
 				for i := 0; i < per; i++ {
-					fs := []Field{{"35", "D"}, F(TagText, fmt.Sprintf("h%d-t%d-i%d", hi, t, i)), F(96, strings.Repeat("z", w.W.Draw(300)))}
+					fs := []Field{{Tag: "35", Val: "D"}, F(TagText, fmt.Sprintf("h%d-t%d-i%d", hi, t, i)), F(96, strings.Repeat("z", w.W.Draw(300)))}
 					o := &handoff{payload: Build(fs, WireOpts{}), task: t, invoke: w.Sched.NextSeq()}
 					if w.W.Chance(1, 2) {
 						o.err = h.SendRaw(o.payload)
